@@ -310,19 +310,25 @@ class TypeEnv:
         return None
 
 
-def class_has_attr(prog: Program, ci: ClassInfo, name: str) -> bool:
-    """``name`` is a field, property, method or self-assigned attribute of ci (MRO)."""
-    for c in prog.mro(ci):
-        if name in c.methods:
-            return True
-        if any(n == name for n, _a, _d in c.fields):
-            return True
+_OWN_ATTRS: Dict[int, set] = {}
+
+
+def _own_attrs(c: ClassInfo) -> set:
+    s = _OWN_ATTRS.get(id(c))
+    if s is None:
+        s = set(c.methods) | {n for n, _a, _d in c.fields}
         for m in c.methods.values():
             for x in walk_no_nested(m.node):
                 if isinstance(x, ast.Attribute) and isinstance(x.ctx, ast.Store) and \
-                        x.attr == name and isinstance(x.value, ast.Name) and x.value.id == "self":
-                    return True
-    return False
+                        isinstance(x.value, ast.Name) and x.value.id == "self":
+                    s.add(x.attr)
+        _OWN_ATTRS[id(c)] = s
+    return s
+
+
+def class_has_attr(prog: Program, ci: ClassInfo, name: str) -> bool:
+    """``name`` is a field, property, method or self-assigned attribute of ci (MRO)."""
+    return any(name in _own_attrs(c) for c in prog.mro(ci))
 
 
 # ------------------------------------------------------------ Optional value types (G5)
